@@ -104,6 +104,26 @@ Section Spec.
 
   Definition is_login (x : out) : bool := match x with OLogin _ => true | _ => false end.
 
+  (* the requests a callback mentions: every non-empty value of its `id` parameter, wherever it
+     travels (form body, URL query, repeated), resolved against the requests accepted so far *)
+  Definition cb_mentioned (i : cbids) : list nat :=
+    flat_map (fun x => match x with Some k => [k] | None => [] end) (cb_all i).
+  Definition resolve (created : list (string * list string * string)) (ks : list nat) :=
+    flat_map (fun k => match nth_error created k with Some e => [e] | None => [] end) ks.
+
+  (* x follows nothing but the stored URI of s (readable corollary C03_callback_addressed) *)
+  Definition points_to (s : sreq) (x : out) : bool :=
+    match x with
+    | ORedirect fr _ t =>
+        match u_canon (info (s_uri s)) with
+        | Some (cq, cf) => String.eqb t (if fr then cf else cq)
+        | None => false
+        end
+    | OForm t => match u_form (info (s_uri s)) with Some t' => String.eqb t t' | None => false end
+    | OLogin _ | OPanic | OOther => false
+    | _ => true
+    end.
+
   (* created = (client id, redirect URIs mentioned, response type) of the requests the
      implementation accepted so far (those it answered with the login redirect) *)
   Fixpoint spec_hist (created : list (string * list string * string)) (ops : list op) (outs : list out) : bool :=
@@ -116,10 +136,12 @@ Section Spec.
             && target_ok (q_client q) (candidates q) (q_rt q) x && login_ok q x
             && spec_hist (if is_login x then created ++ [(q_client q, candidates q, q_rt q)] else created) ops' outs'
         | Login _ => spec_hist created ops' outs'
-        | Callback _ k _ _ =>
-            match match k with Some k => nth_error created k | None => None end with
-            | Some (cid, u, rt) => target_ok cid u rt x && negb (is_login x)
-            | None => no_redirect x
+        | Callback _ ids _ _ =>
+            (* the answer may send the user agent only to a registered URI of a request the callback
+               itself names (whichever of several ids the implementation reads); none named or known: nowhere *)
+            match resolve created (cb_mentioned ids) with
+            | [] => no_redirect x
+            | rs => existsb (fun e => let '(cid, u, rt) := e in target_ok cid u rt x) rs && negb (is_login x)
             end && spec_hist created ops' outs'
         end
     | _, _ => false
